@@ -87,14 +87,16 @@ def check_tree(stmt, declared):
     """walk the emitted statements in order; returns list of problems"""
     import teaal.hifiber as h
     obj = {}          # variable -> object id
+    arity = {}        # object id -> number of ranks the object has (None: unknown)
     ids = {}          # object id -> rank ids or None
     inputs = set()    # object ids of user-supplied tensors
     counter = [0]
     problems = []
 
-    def new_obj(r, inp=False):
+    def new_obj(r, inp=False, n=None):
         counter[0] += 1
         ids[counter[0]] = r
+        arity[counter[0]] = len(r) if isinstance(r, list) else n
         if inp:
             inputs.add(counter[0])
         return counter[0]
@@ -109,7 +111,7 @@ def check_tree(stmt, declared):
         if v not in obj:
             # user-supplied input: its rank ids are what its name says (precondition on the user)
             m = NAME_RE.match(v)
-            obj[v] = new_obj(None, inp=True)
+            obj[v] = new_obj(None, inp=True, n=len(declared[m.group(1)]) if isinstance(declared, dict) else None)
             ids[obj[v]] = "__NAME__" + (m.group(2) or "")
             return
         r = ids[obj[v]]
@@ -154,7 +156,10 @@ def check_tree(stmt, declared):
                 obj[v] = new_obj(_rank_ids(e.args))
             elif isinstance(e, h.EMethod) and isinstance(e.obj, h.EVar) and e.name == "swizzleRanks":
                 read(e.obj.name, text)
+                src_n = arity.get(obj.get(e.obj.name))
                 obj[v] = new_obj(_rank_ids(e.args))
+                if src_n is not None and arity[obj[v]] is not None and arity[obj[v]] != src_n:
+                    problems.append("`%s` swizzles a tensor of %d ranks into %d rank ids" % (text, src_n, arity[obj[v]]))
             elif isinstance(e, h.EVar):
                 if is_tensor_name(e.name) and e.name not in obj:
                     read(e.name, text)
@@ -165,7 +170,17 @@ def check_tree(stmt, declared):
             elif isinstance(e, h.EMethod) and isinstance(e.obj, h.EVar) and e.obj.name in obj and \
                     re.match(r"split|merge|flatten|unflatten", e.name):
                 reads_in(e, text, skip=e.obj)
-                obj[v] = new_obj(None)
+                n0 = arity.get(obj[e.obj.name])
+                lv = [a.expr.int for a in e.args if isinstance(a, h.AParam) and a.name == "levels" and isinstance(a.expr, h.EInt)]
+                if n0 is None:
+                    n1 = None
+                elif e.name.startswith("split"):
+                    n1 = n0 + 1
+                elif e.name.startswith("unflatten"):
+                    n1 = n0 + lv[0] if lv else None
+                else:       # mergeRanks / flattenRanks
+                    n1 = n0 - lv[0] if lv else None
+                obj[v] = new_obj(None, n=n1)
             else:
                 reads_in(e, text)
                 if v in obj:
@@ -178,6 +193,8 @@ def check_tree(stmt, declared):
                 if obj[u] in inputs:
                     problems.append("setRankIds applied in place to the user's input object via %s" % u)
                 ids[obj[u]] = _rank_ids(s.expr.args)
+                if arity.get(obj[u]) is not None and ids[obj[u]] is not None and len(ids[obj[u]]) != arity[obj[u]]:
+                    problems.append("`%s` gives %d rank ids to a tensor that has %d ranks" % (text, len(ids[obj[u]]), arity[obj[u]]))
             return
         if isinstance(s, h.SFor):
             reads_in(s.expr, text)
@@ -210,10 +227,89 @@ def check_tree(stmt, declared):
     return problems, obj, ids
 
 
+EXTRA_SPECS = [
+    ("output rank named I, shape split", """
+einsum:
+  declaration:
+    A: [I, K]
+    Z: [I, K]
+  expressions:
+    - Z[i, k] = A[i, k]
+mapping:
+  partitioning:
+    Z:
+      I: [uniform_shape(4)]
+  loop-order:
+    Z: [I1, I0, K]
+"""),
+    ("output rank named I, occupancy split, consumed by a second Einsum", """
+einsum:
+  declaration:
+    A: [I, J]
+    T: [I, J]
+    Z: [I]
+  expressions:
+    - T[i, j] = A[i, j]
+    - Z[i] = T[i, j]
+mapping:
+  partitioning:
+    T:
+      I: [uniform_occupancy(A.4)]
+  loop-order:
+    T: [I1, I0, J]
+"""),
+    ("three output ranks flattened together", """
+einsum:
+  declaration:
+    A: [M, N, O, P]
+    Z: [M, N, O, P]
+  expressions:
+    - Z[m, n, o, p] = A[m, n, o, p]
+mapping:
+  partitioning:
+    Z:
+      (N, O, P): [flatten()]
+      NOP: [uniform_occupancy(A.4)]
+  loop-order:
+    Z: [M, NOP1, NOP0]
+"""),
+    ("four output ranks flattened together", """
+einsum:
+  declaration:
+    A: [M, N, O, P]
+    Z: [M, N, O, P]
+  expressions:
+    - Z[m, n, o, p] = A[m, n, o, p]
+mapping:
+  partitioning:
+    Z:
+      (M, N, O, P): [flatten()]
+  loop-order:
+    Z: [MNOP]
+"""),
+    ("two flattens of one input, the second needs no reordering", """
+einsum:
+  declaration:
+    A: [I, J, K, M]
+    Z: [I, J, K, M]
+  expressions:
+    - Z[i, j, k, m] = A[i, j, k, m]
+mapping:
+  partitioning:
+    Z:
+      K: [uniform_shape(4)]
+      (I, J): [flatten()]
+      (K0, M): [flatten()]
+  loop-order:
+    Z: [IJ, K1, K0M]
+"""),
+]
+
+
 def _specs(tier):
     from pyvc.extract import REPO
     from props import defaults_family, cascade
-    out = []
+    out = list(EXTRA_SPECS)
     for path in sorted(glob.glob(REPO + "/tests/integration/*.yaml")):
         out.append((path.rsplit("/", 1)[1], open(path).read()))
     for decl, expr, parts in defaults_family.SPECS:
@@ -241,7 +337,7 @@ def bounded(uni, tier, seed):
             continue
         ev += 1
         distinct.add(str(hf))
-        declared = set(es.get_declaration())
+        declared = dict(es.get_declaration())
         problems, obj, ids = check_tree(hf.hifiber, declared)
         # each Einsum's result is bound under its declared (or rank-order) name
         ro = ms.get_rank_orders()
